@@ -141,7 +141,10 @@ def run_case(c, rng):
                 elif cont == 'ndarray':
                     x = np.array(vals)
                 elif cont == 'dict':
-                    x = {'k%d' % i: v for i, v in enumerate(vals)}
+                    # keys in no particular order (natural node numbering is not lexicographic), of either type
+                    ks = rng.choice([['k%d' % i for i in range(len(vals))], ['J%d' % (9 + i) for i in range(len(vals))], ['n%d' % (len(vals) - i) for i in range(len(vals))],
+                                     [100 - 7 * i for i in range(len(vals))]])
+                    x = {k_: v for k_, v in zip(ks, vals)}
                 else:
                     x = pd.DataFrame({'a': vals, 'b': [2 * v for v in vals]}, index=[10 * i for i in range(len(vals))])
                 wit = dict(unit=u, param=p, config=cfgs, container=cont)
